@@ -341,7 +341,9 @@ def classify(item, impl, model):
     if impl == [-9]:
         # the panics that follow from F-C03-a (a view that was never mounted is rebuilt later):
         # predicted by the model, and only in cases with a StaticVec
-        return "F-C03-ab" if model == [-9] and any(has(v, 7) for v in [v0] + vs) else None
+        # (cases with a keyed list are not modelled: there the StaticVec alone decides)
+        predicted = model == [-9] or not item.get("compare", True)
+        return "F-C03-ab" if predicted and any(has(v, 7) for v in [v0] + vs) else None
     if isinstance(model, str):
         return None
     if item.get("compare", True) and impl != model:
